@@ -625,6 +625,14 @@ class PresentationContextItemRQ(PDUItem):
             elif isinstance(syntax, AbstractSyntaxSubItem):
                 context.abstract_syntax = syntax.abstract_syntax_name
 
+        # Part 8, Section 9.3.2.2: the item shall contain one Abstract Syntax
+        #   and one or more Transfer Syntax sub-items
+        if context.abstract_syntax is None or not context.transfer_syntax:
+            raise ValueError(
+                "A Presentation Context (RQ) Item requires an Abstract Syntax "
+                "and at least one Transfer Syntax sub-item"
+            )
+
         return context
 
     @property
